@@ -193,6 +193,7 @@ type Env struct {
 	old     *HeapState
 	vars    map[string]binding
 	ctx     *ResCtx
+	pre     *HeapState // heap at loop entry (loop invariants only)
 	seen    string // term of the current loop's seen array (or "")
 	seenKey *SType
 	depth   int
@@ -387,10 +388,8 @@ func (e *Env) constTerm(v constant.Value, t types.Type) (string, *SType) {
 }
 
 func (e *Env) globalVar(o *types.Var) (string, *SType) {
-	name := "glob!" + sanitize(o.Pkg().Name()+"."+o.Name())
-	e.vc.declare(name, e.w.S.SortOf(o.Type()))
-	e.vc.useGlobal(o, name)
-	return name, &SType{Go: o.Type()}
+	a := e.w.heapArr("glob!"+sanitize(o.Pkg().Name()+"."+o.Name()), e.w.S.SortOf(o.Type()))
+	return e.arr(a, e.cur), &SType{Go: o.Type()}
 }
 
 func (e *Env) zeroLike(t *SType) string {
@@ -516,6 +515,13 @@ func (e *Env) evalCall(x *ECall) (string, *SType) {
 		ne := *e
 		ne.cur = e.old
 		return ne.Eval(x.Args[0])
+	case "pre":
+		if e.pre == nil {
+			e.fail("pre() is only available in loop invariants")
+		}
+		ne := *e
+		ne.cur = e.pre
+		return ne.Eval(x.Args[0])
 	case "len":
 		t, ty := e.Eval(x.Args[0])
 		switch u := types.Unalias(ty.Go).Underlying().(type) {
@@ -630,7 +636,7 @@ func (e *Env) evalCall(x *ECall) (string, *SType) {
 			}
 			vars[fd.Params[i].Name] = binding{t, pt}
 		}
-		ne := &Env{w: e.w, vc: e.vc, cur: e.cur, old: e.old, vars: vars, ctx: fctx, seen: e.seen, depth: e.depth + 1}
+		ne := &Env{w: e.w, vc: e.vc, cur: e.cur, old: e.old, pre: e.pre, vars: vars, ctx: fctx, seen: e.seen, depth: e.depth + 1}
 		body, _ := ne.Eval(fd.Body)
 		if len(lets) > 0 {
 			body = "(let (" + strings.Join(lets, " ") + ") " + body + ")"
